@@ -359,7 +359,7 @@ def run(ctx):
     jobcfg_stream(ctx)
     eljob_stream(ctx)
     tie_stream(ctx, n_tie)
-    lazy_tie_stream(ctx, 150 if ctx.tier == "quick" else 1500)
+    lazy_tie_stream(ctx, 90 if ctx.tier == "quick" else 1500)
     # the differential stream (known findings were replayed above)
     saved = _P.known
     _P.known = lambda c: None
